@@ -5,7 +5,9 @@ from concurrent.futures import ThreadPoolExecutor
 
 VERIF = os.path.dirname(os.path.dirname(os.path.abspath(__file__)))
 REPO = os.environ.get("VERIF_REPO", "/repo")
-BUILD = os.path.join(VERIF, "build")
+BUILD = os.environ.get("VERIF_BUILD") or os.path.join(VERIF, "build")
+# seeded-change runs redirect evidence/replay output so that the committed evidence is not overwritten
+OUT = os.environ.get("VERIF_OUT") or VERIF
 NCPU = os.cpu_count() or 4
 
 GUARD = "JSONCONS_VERIF"
@@ -325,14 +327,14 @@ class Run:
         replay_paths = []
         if new:
             verdict = "violated"
-            os.makedirs(os.path.join(VERIF, "replay", self.prop), exist_ok=True)
+            os.makedirs(os.path.join(OUT, "replay", self.prop), exist_ok=True)
             seen = set()
             for v in new:
                 if v["sig"] in seen:
                     continue
                 seen.add(v["sig"])
                 name = re.sub(r"[^A-Za-z0-9_.-]+", "_", v["sig"])[:80]
-                path = os.path.join(VERIF, "replay", self.prop, "%s-seed%d.json" % (name, self.seed))
+                path = os.path.join(OUT, "replay", self.prop, "%s-seed%d.json" % (name, self.seed))
                 with open(path, "w") as fh:
                     json.dump({"property": self.prop, "signature": v["sig"], "seed": self.seed, "tier": self.tier, "stage": v["stage"],
                                "case": v["case"], "cmd": v["cmd"], "detail": v["detail"], "replay": v["replay"]}, fh, indent=1, default=str)
@@ -367,8 +369,8 @@ class Run:
         cov.update(self.extra_cov)
         ev = {"property_id": self.prop, "tier": self.tier, "seed": int(self.seed), "level": self.level, "coverage": cov,
               "assumptions": self.assumptions, "wall_s": round(time.time() - self.t0, 2), "violations": int(nviol)}
-        os.makedirs(os.path.join(VERIF, "evidence"), exist_ok=True)
-        p = os.path.join(VERIF, "evidence", self.prop + ".json")
+        os.makedirs(os.path.join(OUT, "evidence"), exist_ok=True)
+        p = os.path.join(OUT, "evidence", self.prop + ".json")
         with open(p + ".tmp", "w") as fh:
             json.dump(ev, fh, indent=1, sort_keys=True, default=str)
         os.replace(p + ".tmp", p)
